@@ -54,6 +54,6 @@ Print Assumptions C06_links_resolve.
 
 (* The hypotheses are satisfiable by a non-trivial system (two processes storing and committing on an initialised store). *)
 Theorem C06_nonvacuous : exists root data enc menc s0, init_ok root data enc menc s0 /\ LinkLive root enc menc (s_fs s0) /\
-  disciplined root enc menc s0 /\ length (s_procs s0) = 2 /\ (forall p, In p (s_procs s0) -> length (p_todo p) >= 3).
+  disciplined root enc menc s0 /\ List.length (s_procs s0) = 2 /\ (forall p, In p (s_procs s0) -> List.length (p_todo p) >= 3).
 Proof. exact example_system. Qed.
 Print Assumptions C06_nonvacuous.
